@@ -21,7 +21,7 @@ ASSUMPTIONS = ["charge groups compared up to one constant per block instance",
 CASE_TIMEOUT = 60
 WALL = {"quick": 900, "thorough": 7200}
 REQUIRED = {"residues_checked": 200, "block_interactions_checked": 200, "multi_residue_cases": 5,
-            "offset_cases": 20, "mods_cases": 5, "modification_interactions_checked": 20, "library_cases": 100, "default_termini_atoms": 10, "dsdna_cases": 50,
+            "offset_cases": 20, "mods_cases": 5, "modification_interactions_checked": 20, "mods_cases_with_residues_from_an_itp_molecule": 10, "library_cases": 100, "default_termini_atoms": 10, "dsdna_cases": 50,
             "dsdna_cases_ids_not_from_one": 15}
 
 
@@ -245,9 +245,34 @@ def run_mods(cid, rng, workdir, res):
              "edges": [(i, i + 1, None) for i in range(n - 1)], "kind": "lin"}
     with open(os.path.join(workdir, "m.ff"), "w") as fh:
         fh.write(text)
-    RG.to_json(graph, os.path.join(workdir, "m.json"))
     case = {"files": [("m.ff", text)], "inpath": ["m.ff"], "graph": graph,
             "descr": {"layout": "mods", "graph": RG.describe(graph)}}
+    if n >= 3 and not rename and rng.random() < 0.3:
+        # the first two residues come as a finished molecule from an .itp file (from_itp): such residues are copied as
+        # they are, terminal and requested modifications leave them alone
+        bd_ = {b["name"]: b for b in blocks}
+        for nd in graph["nodes"][:2]:
+            if nd["resname"] == "LNK":
+                nd["resname"] = names[0]
+            nd["from_itp"] = "PEP"
+        il = ["[ moleculetype ]", "PEP 1", "[ atoms ]"]
+        k, firsts, bonds = 1, [], []
+        for ri, nd in enumerate(graph["nodes"][:2]):
+            firsts.append(k)
+            for j, a in enumerate(bd_[nd["resname"]]["atoms"]):
+                il.append("%d %s %d %s %s %d %r %r" % (k, a["atype"], ri + 1, nd["resname"], a["name"], k, a["charge"], a["mass"]))
+                if j:
+                    bonds.append("%d %d 1 0.300 1000" % (firsts[-1], k))
+                k += 1
+        bonds.append("%d %d 1 0.350 1250" % (firsts[0], firsts[1]))
+        itp_text = "\n".join(il + ["[ bonds ]"] + bonds) + "\n"
+        with open(os.path.join(workdir, "pep.itp"), "w") as fh:
+            fh.write(itp_text)
+        case["files"].insert(0, ("pep.itp", itp_text))
+        case["inpath"].insert(0, "pep.itp")
+        case["descr"]["graph"] = RG.describe(graph)
+        bump(res, "mods_cases_with_residues_from_an_itp_molecule")
+    RG.to_json(graph, os.path.join(workdir, "m.json"))
     # choose modifications
     target_nodes = rng.sample(range(n), rng.randint(1, min(2, n)))
     modspec = []
@@ -279,8 +304,8 @@ def run_mods(cid, rng, workdir, res):
     def expect(mlist):
         rep = {}
         for nd, mname in mlist:
-            if nd["resname"] == "LNK":
-                continue                      # not a protein residue: left alone
+            if nd["resname"] == "LNK" or nd.get("from_itp"):
+                continue                      # not a protein residue / part of a finished molecule: left alone
             for aname, r in mod_defs[mname].items():
                 if rename and aname == "SC1" and "SC1" in bnames[nd["resname"]]:
                     continue                  # that atom is called SX by now
@@ -300,7 +325,7 @@ def run_mods(cid, rng, workdir, res):
                 idx_of[(nd["resid"], a["name"])] = pos
         have = {(tuple(ats), tuple(str(x) for x in prm)) for (ats, prm, _c) in obs["inter"].get("angles", {})}
         for nd, mn in applied[tag]:
-            if mn in mod_angles and nd["resname"] != "LNK":
+            if mn in mod_angles and nd["resname"] != "LNK" and not nd.get("from_itp"):
                 bump(res, "modification_interactions_checked")
                 want_at = tuple(idx_of[(nd["resid"], a)] for a in ("BB", "SC1", "SC2"))
                 if not any(ats in (want_at, want_at[::-1]) and list(prm) == mod_angles[mn] for ats, prm in have):
